@@ -11,14 +11,14 @@ struct Cat(Vec<u8>);   // a non-commutative amount: concatenation
 impl AddAssign for Cat { fn add_assign(&mut self, o: Cat) { self.0.extend(o.0); } }
 
 #[derive(Clone, Debug, PartialEq)]
-enum Op { Add(usize, u8), Mark(usize), Load(usize, u64) }
+enum Op { Add(usize, u8), Ext(usize, usize), Mark(usize), Load(usize, u64) }
 impl Op {
-    fn json(&self) -> String { match self { Op::Add(e, v) => format!("[\"add\",{},{}]", e, v), Op::Mark(e) => format!("[\"mark\",{}]", e), Op::Load(e, id) => format!("[\"load\",{},{}]", e, id) } }
+    fn json(&self) -> String { match self { Op::Add(e, v) => format!("[\"add\",{},{}]", e, v), Op::Ext(a, b) => format!("[\"extend\",{},{}]", a, b), Op::Mark(e) => format!("[\"mark\",{}]", e), Op::Load(e, id) => format!("[\"load\",{},{}]", e, id) } }
     fn parse(t: &str) -> Option<Op> {
         let t = t.trim().trim_matches(|c| c == '[' || c == ']');
         let p: Vec<&str> = t.split(',').map(|s| s.trim().trim_matches('"')).collect();
         let n = |i: usize| p.get(i).and_then(|s| s.parse::<u64>().ok());
-        Some(match p[0] { "add" => Op::Add(n(1)? as usize, n(2)? as u8), "mark" => Op::Mark(n(1)? as usize), "load" => Op::Load(n(1)? as usize, n(2)?), _ => return None })
+        Some(match p[0] { "add" => Op::Add(n(1)? as usize, n(2)? as u8), "extend" => Op::Ext(n(1)? as usize, n(2)? as usize), "mark" => Op::Mark(n(1)? as usize), "load" => Op::Load(n(1)? as usize, n(2)?), _ => return None })
     }
 }
 struct M;
@@ -39,6 +39,16 @@ fn replay(prop: &str, hist: &[Op]) -> Result<(), (usize, String, String)> {
                 let got: BTreeMap<u32, Vec<u8>> = (&*entities, &cs).join().map(|(en, c)| (en.id(), c.0.clone())).collect();
                 let want: BTreeMap<u32, Vec<u8>> = model.iter().map(|(e, v)| (ents[*e].id(), v.clone())).collect();
                 if got != want { return Err((k, "C16".into(), format!("change set holds {:?}, arrival-order accumulation is {:?}", got, want))); }
+            }
+            Op::Ext(a, b) => {
+                // extend with three pairs (a, 7), (b, 8), (a, 9): arrival order, repeated entity
+                if prop != "C16" && prop != "any" { continue; }
+                cs.extend(vec![(ents[a], Cat(vec![7])), (ents[b], Cat(vec![8])), (ents[a], Cat(vec![9]))]);
+                model.entry(a).or_default().push(7); model.entry(b).or_default().push(8); model.entry(a).or_default().push(9);
+                let entities = world.entities();
+                let got: BTreeMap<u32, Vec<u8>> = (&*entities, &cs).join().map(|(en, c)| (en.id(), c.0.clone())).collect();
+                let want: BTreeMap<u32, Vec<u8>> = model.iter().map(|(e, v)| (ents[*e].id(), v.clone())).collect();
+                if got != want { return Err((k, "C16".into(), format!("after extend the change set holds {:?}, arrival-order accumulation is {:?}", got, want))); }
             }
             Op::Mark(e) => {
                 if prop != "C15" && prop != "any" { continue; }
@@ -66,7 +76,7 @@ fn replay(prop: &str, hist: &[Op]) -> Result<(), (usize, String, String)> {
 }
 fn ops() -> Vec<Op> {
     let mut v = vec![];
-    for e in 0..3 { v.push(Op::Add(e, 1)); v.push(Op::Add(e, 2)); v.push(Op::Mark(e)); for id in 0..4 { v.push(Op::Load(e, id)); } }
+    for e in 0..3 { v.push(Op::Add(e, 1)); v.push(Op::Add(e, 2)); v.push(Op::Ext(e, (e + 1) % 3)); v.push(Op::Mark(e)); for id in 0..4 { v.push(Op::Load(e, id)); } }
     v
 }
 fn dfs(prop: &str, h: &mut Vec<Op>, d: usize, seed: u64, n: &mut u64) -> Option<(Vec<Op>, String, String)> {
